@@ -330,18 +330,27 @@ DamageViol(r, c) ==
                \* splice of its first frame with a stale continuation frame (finding D10 when the reader stopped
                \* at an all-zero header - the end-of-log marker - that damage put in its way)
           \cup (IF r.cls = "dmgcrash" THEN
-                  LET inrec == <<r.inflight[2], r.inflight[3], r.inflight[4]>>
-                      c2 == [c EXCEPT !.batches = Append(@, [q |-> r.inflight[1], tp |-> -1, recs |-> <<inrec>>])]
-                      spliced == \E i \in 1..Len(r.st.qs) : r.st.qs[i].q = r.inflight[1] /\
-                                   \E j \in 1..Len(r.st.qs[i].recs) :
-                                      LET g == r.st.qs[i].recs[j] IN g[1] = inrec[1] /\ g[3] = inrec[3] /\ g[2] # inrec[2] /\ ~Genuine(r.inflight[1], g, c)
+                  LET iq == r.inflight.q
+                      irecs == [i \in 1..Len(r.inflight.recs) |-> <<r.inflight.recs[i][1], r.inflight.recs[i][2], r.inflight.recs[i][3]>>]
+                      c2 == [c EXCEPT !.batches = Append(@, [q |-> iq, tp |-> -1, recs |-> irecs])]
+                      got == IF \E i \in 1..Len(r.st.qs) : r.st.qs[i].q = iq
+                             THEN r.st.qs[CHOOSE i \in 1..Len(r.st.qs) : r.st.qs[i].q = iq].recs ELSE <<>>
+                      \* a recovered record at a position of the torn batch, of that record's length, with another content
+                      spliced == \E j \in 1..Len(got), i \in 1..Len(irecs) :
+                                    got[j][1] = irecs[i][1] /\ got[j][3] = irecs[i][3] /\ got[j][2] # irecs[i][2] /\ ~Genuine(iq, got[j], c)
                       others == {m \in NonGenuine(r.st, c2) : m # "recovered record was never appended"}
                       never == {m \in NonGenuine(r.st, c2) : m = "recovered record was never appended"}
+                      \* C12: a record of the torn batch is back while a LATER one is absent altogether (missing tail or hole)
+                      posBack(i) == \E j \in 1..Len(got) : got[j][1] = irecs[i][1]
+                      recBack(i) == \E j \in 1..Len(got) : got[j] = irecs[i]
+                      \* (a missing LEADING part is not judged: stale Truncate entries behind the splice are replayed too)
+                      partial == \E i, j \in 1..Len(irecs) : i < j /\ recBack(i) /\ ~posBack(j)
                   IN Tag("C08", others \cup
                        (IF never = {} THEN {}
                         ELSE IF spliced THEN {"recovered record is a splice of the first frame of an append cut short by a crash and a stale continuation frame behind the point where " \o
                                               (IF r.dmgkind = "zeromarker" THEN "damage made the reader meet an all-zero header (the end-of-log marker) in front of valid frames" ELSE "the reader stopped at a header that is not all-zero after damage (" \o r.dmgkind \o ")")}
                         ELSE never))
+                     \cup (IF partial THEN {<<"C12", "batch of an append cut short by a crash behind damaged frames recovered with a hole or a missing tail">>} ELSE {})
                 ELSE {})
           \cup (IF single THEN Tag("C09", LostViol(x, c, r.hit)) ELSE {})
           \cup (IF r.cls \in {"payload", "crc", "hdr"} THEN Tag("C12", BatchViol(x, c.batches)) ELSE {})
